@@ -121,6 +121,9 @@ def run(ctx):
         x5 = np.cumsum([0] + [rng.choice([1, 2]) for _ in range(n5 - 1)]).astype(float)
         y5 = np.array([rng.choice([0, 1, 2, 3]) for _ in range(n5)], float)
         chain(ctx, np.column_stack([x5, y5]), rng.choice(cfgs), 'small-scope-5-6')
+    for _ in range(8 if quick else 120):
+        pts, fam = rdpfam.bytecount_curve(rng)
+        chain(ctx, pts, dict(dist='perpendicular', order=rng.choice(rdpfam.ORDERS), int_dtype=True), fam)
     for _ in range(150 if quick else 3000):
         u = rng.random()
         if u < 0.2:
